@@ -14,6 +14,7 @@ from typing import (
 from .types import (
     Intersection,
     Order,
+    Union,
     clsstring,
     get_args,
     normalize_type,
@@ -249,7 +250,11 @@ class Equals(ParametrizedDependentType):
     keyable_type = True
 
     def default_bound(self, *parameters):
-        return type(parameters[0])
+        types = {type(p) for p in parameters}
+        if len(types) == 1:
+            return types.pop()
+        else:
+            return Union[tuple(sorted(types, key=lambda t: t.__qualname__))]
 
     def check(self, value):
         return value in self.parameters
